@@ -23,15 +23,21 @@ RULE = ('Evaluation = one scene run with the same effective parameter values thr
 ASSUMPTIONS = ['scaling modes other than minmax-scale can only be installed by replacing SLICING_PRMS in the global dictionary '
                '(per-call and YAML routes merge into height_scale_kwargs), so route equivalence is checked for minmax-scale',
                'the packaged YAML is parsed independently with ruamel.yaml as the reference for reset']
-REQUIRED = ['routes_4', 'yaml_route', 'poisoned_global', 'unknown_key_warning', 'unknown_keys_listed_first', 'none_override', 'reset_all_after_nested_edit',
+REQUIRED = ['routes_4', 'yaml_route', 'poisoned_global', 'unknown_key_warning', 'unknown_keys_listed_first', 'all_top_level_keys_sections_partial', 'non_ascii_exclusion_under_legacy_locale', 'legacy_locale_mode', 'none_override', 'reset_all_after_nested_edit',
             'reset_subset_after_nested_edit', 'reset_unknown_name', 'nested_override', 'dict_subclass_sections', 'global_route_with_history']
 SIZES = {'quick': dict(scenes=110, subsets=200), 'thorough': dict(scenes=1500, subsets=2 ** 14)}
 EXHAUSTIVE = {'thorough': 'all 2^14 subsets of the top-level parameter names passed to reset_prms (reset part only)'}
 
 
+LEGACY_LOCALE_SHARDS = True
+
+
 def plan(tier, seed):
     z = SIZES[tier]
     out = [{'fam': 'routes', 's': seed, 'i': i} for i in range(z['scenes'])]
+    # the routes once more in workers running under a legacy locale (LC_ALL=C, UTF-8 mode off), with non-ASCII
+    # instrument names in the exclusion list (the YAML file is UTF-8, whatever the locale)
+    out += [{'fam': 'routes', 's': seed, 'i': 50000 + i, 'legacy_locale': True} for i in range(8 if tier == 'quick' else 96)]
     per = 100 if tier == 'quick' else 512
     for j in range(z['subsets'] // per):
         out.append({'fam': 'reset', 'lo': j * per, 'n': per, 'all': tier == 'thorough', 's': seed, 'i': 100000 + j})
@@ -72,8 +78,22 @@ def check_routes(desc):
     from ruamel.yaml import YAML
     rng = scenes.rng_for(desc['s'], NUM, desc['i'])
     viol, tags = [], set()
-    sc = scenes.gen_scene(rng, maxrows=250)
+    if desc.get('legacy_locale'):
+        sc = scenes.gen_scene(rng, maxrows=250, nce=int(rng.choice([2, 3, 4])), names=['Z\u00fcrich', 'Gen\u00e8ve', 'Sion\u2708', 'B\u00e2le'][:4])
+        sc['names'] = sorted(set(r[0] for r in sc['rows']))
+    else:
+        sc = scenes.gen_scene(rng, maxrows=250)
     p = scenes.gen_prms(rng, sc, scaling=False, rich=True)['call']
+    if desc.get('legacy_locale'):
+        p['EXCLUDE_FOR_BASE_HEIGHT_CALC'] = [sc['names'][int(rng.integers(len(sc['names'])))]]
+        tags.add('non_ascii_exclusion_under_legacy_locale')
+    if desc['i'] % 5 == 2:
+        # every top-level name given, the sections only partly (values = the packaged ones: no effect expected)
+        dflt = obs.defaults()
+        for k, v in dflt.items():
+            if k not in p:
+                p[k] = {kk: copy.deepcopy(vv) for kk, vv in list(v.items())[:1]} if isinstance(v, dict) else copy.deepcopy(v)
+        tags.add('all_top_level_keys_sections_partial')
     if desc['i'] % 2 == 0 and len(sc['names']) >= 2:
         p['EXCLUDE_FOR_BASE_HEIGHT_CALC'] = [sc['names'][int(rng.integers(len(sc['names'])))]]
     if desc['i'] % 3 == 0:
